@@ -171,12 +171,19 @@ func (p *c10Pub) Close() error {
 	return nil
 }
 
+// a panic inside a Router call made by the harness is recorded, not fatal
+func c10Recover(rt *hookrt.Runtime, what string) {
+	if r := recover(); r != nil {
+		rt.Stamp("api.panic", what, fmt.Sprint(r))
+	}
+}
+
 // ---- running one scenario
 
 const (
-	c10ObsWait   = 3 * time.Second // waiting for Running / Started / Stopped / a call to return
-	c10RunWait   = 4 * time.Second // watchdog for "Run returns"
-	c10ProbeWait = 3 * time.Second
+	c10ObsWait   = 5 * time.Second // waiting for Running / Started / Stopped / a call to return
+	c10RunWait   = 8 * time.Second // watchdog for "Run returns"
+	c10ProbeWait = 6 * time.Second
 )
 
 func c10Run(rt *hookrt.Runtime, sc *c10Scenario, seed int64) {
@@ -271,10 +278,11 @@ func c10Run(rt *hookrt.Runtime, sc *c10Scenario, seed int64) {
 			mainStarted = true
 			go func() {
 				rt.Register(tid)
+				defer close(runDone)
+				defer c10Recover(rt, "Run")
 				rt.Stamp("api.run.call", fmt.Sprint(tid))
 				err := router.Run(ctx)
 				rt.Stamp("api.run.ret", fmt.Sprint(tid), fmt.Sprint(err == nil))
-				close(runDone)
 			}()
 			// a second Run must not race with the first one's unsynchronised check-and-set
 			time.Sleep(200 * time.Microsecond)
@@ -305,6 +313,7 @@ func c10Run(rt *hookrt.Runtime, sc *c10Scenario, seed int64) {
 				go func() {
 					defer asyncWg.Done()
 					defer wg.Done()
+					defer c10Recover(rt, "RunHandlers")
 					rt.Register(tid)
 					c := ctx
 					if op.Bg {
@@ -376,6 +385,7 @@ func c10Run(rt *hookrt.Runtime, sc *c10Scenario, seed int64) {
 		case "close":
 			tid := newTid()
 			f := func() {
+				defer c10Recover(rt, "Close")
 				rt.Register(tid)
 				rt.Stamp("api.close.call", fmt.Sprint(tid))
 				err := router.Close()
